@@ -1,7 +1,7 @@
 (* C05 -- triangulation: predicates and area conservation of the elementary steps.  Theorems only.
    PARTIAL: containment / non-overlap as point-set statements and earcut's control flow are validated
    by the exact tiling checker of the harness, not proved. *)
-From LBG Require Import Base QGeom ListCyc G0_vec G1_shapes G2_inter G3_poly G6_tri C01_area C05_tri.
+From LBG Require Import Base QGeom ListCyc G0_vec G1_shapes G2_inter G3_poly G6_tri C01_area C05_tri C05_convex.
 Open Scope Q_scope.
 
 Theorem C05_area_sign_is_orientation : forall p q r, earcut_area p q r == - det2 (sub2 q p) (sub2 r p).
@@ -42,6 +42,23 @@ Theorem C05_diagonal_split_conserves_area : forall a l1 b l2,
   shoelace2 (a :: l1 ++ b :: l2) == shoelace2 (a :: l1 ++ [b]) + shoelace2 (b :: l2 ++ [a]).
 Proof. exact split_ring_area. Qed.
 Print Assumptions C05_diagonal_split_conserves_area.
+
+(* the test that selects the fan shortcut (Polygon2D.is_convex, generated from the source): True exactly when no vertex - first and
+   last included - turns against the orientation of the loop *)
+Theorem C05_is_convex_checks_the_turn_at_every_vertex : forall p : Polygon2R,
+  let vs := pg_vertices p in let n := length vs in
+  Polygon2D_is_convex p = true <->
+  (n = 3%nat \/ forall i, (i < n)%nat ->
+     let t := det2 (sub2 (cnth vs i) (cnth vs (i + n - 1))) (sub2 (cnth vs (S i)) (cnth vs i)) in
+     if Polygon2D_is_clockwise p then t <= 0 else 0 <= t).
+Proof. exact is_convex_vertices. Qed.
+Print Assumptions C05_is_convex_checks_the_turn_at_every_vertex.
+
+Example C05_is_convex_nonvacuous :
+  Polygon2D_is_convex (mkPolygon2 [mkV2 0 0; mkV2 4 0; mkV2 4 4; mkV2 0 4]) = true /\
+  Polygon2D_is_convex (mkPolygon2 [mkV2 0 0; mkV2 4 0; mkV2 4 4; mkV2 2 1]) = false /\
+  Polygon2D_is_convex (mkPolygon2 [mkV2 2 1; mkV2 0 0; mkV2 4 0; mkV2 4 4]) = false.
+Proof. vm_compute. repeat split; reflexivity. Qed.
 
 Example C05_nonvacuous :
   earcut_intersects (mkV2 0 0) (mkV2 2 2) (mkV2 0 2) (mkV2 2 0) = true /\
